@@ -516,13 +516,13 @@ class C20(core.Check):
             try:
                 mon.start()
                 first = mon.thread
-                first.join(5)
+                first.join(60)
                 died = not first.is_alive() and len(calls) == 1
                 for op in prog:
                     getattr(mon, op)()
                 want = 0 if prog[-1] == 'stop' else 1
                 t0 = time.time()
-                while want and len(calls) < 2 and time.time() - t0 < 3:
+                while want and len(calls) < 2 and time.time() - t0 < 60:
                     time.sleep(0.01)
                 live = [t for t in threading.enumerate() if isinstance(t, plugins.BackgroundTask) and t.is_alive()
                         and t.name == 'c20-dying']
